@@ -1,3 +1,4 @@
 pub mod c08;
 pub mod c09;
+pub mod c01;
 pub mod generated;
